@@ -320,6 +320,10 @@ func labelsFromSelectors(matches []labels.MatchType, selector *promParser.Vector
 		if !slices.Contains(matches, lm.Type) {
 			continue
 		}
+		if lm.Type == labels.MatchEqual && lm.Value == "" {
+			// {name=""} matches only series without this label.
+			continue
+		}
 		names = appendToSlice(names, lm.Name)
 	}
 	return names
